@@ -941,4 +941,3 @@ func run(e *harness.Env) {
 	e.Max("case_depth_max", int64(r.maxDepth))
 	os.RemoveAll(dir)
 }
-
